@@ -154,6 +154,20 @@ Section Formatter.
 
 End Formatter.
 
+(* ------------------------------------------------------------------ a parameter glued to a following range *)
+(* The lexer's parameter token takes letters, digits, `_` and `.`: a parameter token directly in front of a `..` that
+   binds to the left would be read as one parameter (`$a..b`).  `glued ts`: some parameter token of ts is directly
+   followed by such a range token. *)
+Fixpoint glued (ts : list tok) : bool :=
+  match ts with
+  | [] => false
+  | t :: r =>
+      (match t, r with
+       | TA (AParam _), TRg true _ :: _ => true
+       | _, _ => false
+       end) || glued r
+  end.
+
 (* ------------------------------------------------------------------ compatibility of the formatter's tables with the parser's *)
 (* a Binary child with operator o2 stays without parentheses under context strength ctx at position pos *)
 Definition unwrapped_at (F : ftab) (ctx : N) (pos : position) (o2 : nat) : bool :=
